@@ -537,6 +537,31 @@ func (w *spWorld) apply(st *spStep, a *spArgs, rep *common.Report) error {
 			w.sendAcct[a.N] = a.Acct
 			w.recordSend(a.N, tx)
 		}
+	case "SendDup":
+		// the same eligible output listed twice, for an amount one use cannot pay: any refusal is fine,
+		// a transaction that spends the output twice is not
+		scope := scopeOf[a.Scope]
+		what := fmt.Sprintf("SendOutputsWithInput(acct %d, %s, minconf %d) with coin %d listed twice", a.Acct, a.Scope, a.Mc, a.C)
+		amount := w.outOf[a.C].Value + w.outOf[a.C].Value/2
+		outs := []*wire.TxOut{wire.NewTxOut(amount, w.foreign)}
+		sel := []wire.OutPoint{w.opOf[a.C], w.opOf[a.C]}
+		tx, err := e.w.SendOutputsWithInput(outs, &scope, uint32(a.Acct), int32(a.Mc), 1000, wallet.CoinSelectionLargest, "", sel)
+		w.n++
+		if err == nil {
+			seen := map[wire.OutPoint]bool{}
+			dup := false
+			for _, in := range tx.TxIn {
+				if seen[in.PreviousOutPoint] {
+					dup = true
+				}
+				seen[in.PreviousOutPoint] = true
+			}
+			if dup {
+				w.add("inputs", what+": the created transaction spends the same output twice", fmt.Sprintf("%d inputs, %d distinct", len(tx.TxIn), len(seen)), "refused")
+			} else {
+				w.add("refusal", what+" result", "ok", "refused")
+			}
+		}
 	case "FundOwn":
 		scope := scopeOf[a.Scope]
 		what := fmt.Sprintf("FundPsbt with caller-chosen inputs (acct %d, %s, minconf %d)", a.Acct, a.Scope, a.Mc)
